@@ -151,7 +151,14 @@ impl<P: Prop> DynProp for P {
     }
     fn run_tape(&self, tape: &[u32], tier: Tier, want_case: bool) -> TapeOutcome {
         let mut t = Tape::new(tape);
-        let case = self.decode(&mut t, tier);
+        let case = match catch(|| self.decode(&mut t, tier)) {
+            Ok(c) => c,
+            Err(p) => {
+                // a bug of the harness's own generator: never report it as a property violation
+                eprintln!("HARNESS BUG: generator panicked at {}:{}: {}", p.file, p.line, p.msg);
+                std::process::exit(2);
+            }
+        };
         let overrun = t.overrun;
         let hash = hash_json(&case);
         let result = match catch(|| self.check(&case)) {
